@@ -25,8 +25,9 @@ Fixpoint sortedb (l : list N) : bool :=
   end.
 
 (* the collection as the scan traverses it *)
+(* [rev_append coll []] = [rev coll] (List.rev_alt), linear when evaluated *)
 Definition view (o : order) (coll : list N) : list N :=
-  match o with Asc => coll | Desc => rev coll end.
+  match o with Asc => coll | Desc => rev_append coll [] end.
 
 (* "a precedes b in the scan's order" *)
 Definition ltb_of (o : order) (a b : N) : bool :=
